@@ -273,6 +273,66 @@ def run(ctx, env):
             n8 += 1
             ctx.ob("R15.8", o["func"], o["detail"], o["status"] == "discharged", o["reason"], o["site"])
     ctx.floor("R15.8", "v9", "record-count obligations", n8, 3)
+    ctx.rule("R15.9", "every flowset a V9 packet reports costs input bytes: the repetition over flowsets is bounded only by the announced count, so each iteration that adds an element must consume at least one byte - on every success path of the repetition's body the returned cursor is the remainder of a parser whose layout has a fixed non-zero minimum width (the 4-byte flowset header), never of a variable-length `take(header.length)` alone (length 0 would add an element per announced count for no input)")
+    from . import consume as _cons9
+    from .layout import Layouts as _Lay9
+    lay9 = _Lay9(prog, an)
+    tgt9 = "variable_versions::v9::FlowSet::parse"
+    n9 = 0
+    for p9, b9 in sorted(prog.bodies.items()):
+        if b9.derived or p9.startswith(tgt9) or "parse_le" in p9:
+            continue
+        if not any(c is not None and c.local and c.path == tgt9 for _, _, c in b9.calls()):
+            continue
+        members, _ = _cons9._ok_members(an, b9)
+        for cur9, val9 in members:
+            vtxt = canon(peel(val9))
+            n9 += 1
+            if "mut_" not in vtxt and "push" not in vtxt and peel(cur9)[0] in ("arg", "tfield", "field") and not find(cur9, lambda n: n[0] == "call"):
+                continue          # nothing added on this path (the `input is empty` return)
+            steps9 = _cons9.chain_steps(an, lay9, an.expand(cur9))
+            unknown = [s_ for s_ in steps9 if s_[0] == "?" and not (peel(s_[1])[0] in ("cycle", "mutlocal") or (peel(s_[1])[0] == "tfield" and peel(peel(s_[1])[1][1] if len(peel(s_[1])[1]) > 1 else ("x",))[0] == "cycle"))]
+            widths = [lay9.min_width(s_[2]) for s_ in steps9 if s_[0] == "step"]
+            ok9 = any(w > 0 for w in widths)
+            # a phi of alternatives: every alternative must make progress - chain_steps concatenates them, so look at each
+            cp9 = peel(an.expand(cur9))
+            alts = cp9[1] if cp9[0] == "phi" else [cp9]
+            bad_alt = None
+            for a9 in alts:
+                if peel(a9)[0] == "arg" and len(alts) > 1:
+                    continue      # the explicit-loop form: no iteration was made, nothing was added
+                st_a = _cons9.chain_steps(an, lay9, a9)
+                def _carried(x):
+                    y = peel(x[1])
+                    while y[0] in ("ref", "deref"):
+                        y = peel(y[1])
+                    return y[0] in ("cycle", "mutlocal") or (y[0] in ("tfield", "ok", "some") and bool(find(y, lambda n: n[0] == "cycle")) and not find(y, lambda n: n[0] == "call"))
+                if any(x[0] == "?" and not _carried(x) for x in st_a) or not any(lay9.min_width(x[2]) > 0 for x in st_a if x[0] == "step"):
+                    bad_alt = canon(peel(a9))[:120]
+            ok9 = ok9 and bad_alt is None
+            ctx.ob("R15.9", p9, "each-reported-flowset-consumes-input", ok9,
+                   ("a success path of the flowset repetition returns a cursor that is not shown to have advanced (%s): with a zero length field every announced flowset is reported for no input" % (bad_alt or [canon(peel(x[1]))[:80] for x in unknown][:1])) if not ok9
+                   else "every alternative of the returned cursor is the remainder of a parser with a fixed minimum width of %s byte(s)" % sorted(set(w for w in widths if w > 0)), site=site(b9.span))
+    if n9 == 0:
+        # the repetition carries its cursor in a private struct (`FlowSetCursor { remaining, flowsets }`): no
+        # (remainder, value) tuple to follow - judge the parsers its body applies instead: each has a fixed non-zero
+        # minimum width and no bare `take` is applied there
+        for p9, b9 in sorted(prog.bodies.items()):
+            if b9.derived or p9.startswith(tgt9) or "parse_le" in p9 or not any(c is not None and c.local and c.path == tgt9 for _, _, c in b9.calls()):
+                continue
+            widths9, bare = [], []
+            for blk9, t9, c9 in b9.calls():
+                if c9 is None:
+                    continue
+                if c9.local and prog.bodies.get(c9.path) is not None and re.match(r"^std::result::Result<\(&", prog.bodies[c9.path].local_ty(0)):
+                    n9 += 1
+                    widths9.append(lay9.min_width(("struct", None, c9.path)))
+                if c9.npath in ("nom::bytes::complete::take", "nom::bytes::streaming::take"):
+                    bare.append(b9.line(blk9))
+            ok9 = bool(widths9) and all(w > 0 for w in widths9) and not bare
+            ctx.ob("R15.9", p9, "each-reported-flowset-consumes-input", ok9,
+                   "parsers applied by the repetition body have minimum widths %s; bare take(..) applications: %s" % (widths9, bare), site=site(b9.span))
+    ctx.floor("R15.9", "v9", "success paths of the flowset repetition that add an element", n9, 1)
     ctx.rule("R15.7", "on the decode path nothing is allocated in proportion to the cached template alone: every collect / to_vec / clone / with_capacity in a hand-written parser under variable_versions takes its size from the input bytes (or a constant) - a per-flowset table built from the template's field list costs (number of flowsets) x (template width) for a buffer of minimal flowsets that decode to nothing")
     from . import consume as _cons7
     TEMPLATE_TY = re.compile(r"\b(Template|OptionsTemplate|TemplateField|OptionsTemplateScopeField|V9Parser|IPFixParser)\b")
@@ -310,7 +370,30 @@ def run(ctx, env):
             if c is None or not (c.nsyn in CLONERS or c.npath in CLONERS) or not t["args"]:
                 continue
             src = an.op(b, t["args"][0])
-            gets = find(src, lambda n: n[0] == "call" and n[2] is not None and n[2].npath in _GET and n[3])
+            # what is copied: a remainder slice `ok(P(cursor, template)).0` is a piece of the input, whatever else the
+            # parser P was given - only the cursor it came from is followed there
+            gets = []
+            from ..slicer import walk as _walk5
+
+            def _f5(n):
+                if n[0] == "tfield" and n[2] == 0 and n[1][0] == "ok" and peel(n[1][1])[0] == "call" and peel(n[1][1])[3]:
+                    cal5 = peel(n[1][1])
+                    cb5 = prog.bodies.get(cal5[2].path) if cal5[2] is not None and cal5[2].local else None
+                    if cb5 is not None and re.match(r"^std::result::Result<\(&", cb5.local_ty(0)):
+                        st5 = _Lay9(prog, an).step_of_call(cal5) if False else None
+                        cur5 = [a for a in cal5[3] if True][:1]
+                        for a in cal5[3]:
+                            ty_ok = True
+                        # the cursor is the first `&[u8]` argument
+                        for k5 in range(cb5.arg_count):
+                            if "[u8]" in cb5.local_ty(k5 + 1) and k5 < len(cal5[3]):
+                                _walk5(cal5[3][k5], _f5)
+                                break
+                        return False
+                if n[0] == "call" and n[2] is not None and n[2].npath in _GET and n[3]:
+                    gets.append(n)
+                return True
+            _walk5(src, _f5)
             hit = None
             for g in gets:
                 _, recv = an.lift(b, g[3][0])
